@@ -43,10 +43,12 @@ func c14Monitor(args []string) int {
 		d := &captureDriver{}
 		s.SetUciHandler(d)
 		var log []string
-		in := func() map[string]interface{} { return map[string]interface{}{"storm": storm, "seed": seed, "calls": fmt.Sprint(log)} }
-		accepted := 0          // starts that were accepted (no search running at that time)
-		var kinds []string     // kind of every accepted search
-		var stopIssued []bool  // a stop/ponderhit was issued after the start of search i
+		in := func() map[string]interface{} {
+			return map[string]interface{}{"storm": storm, "seed": seed, "calls": fmt.Sprint(log)}
+		}
+		accepted := 0         // starts that were accepted (no search running at that time)
+		var kinds []string    // kind of every accepted search
+		var stopIssued []bool // a stop/ponderhit was issued after the start of search i
 		bad := false
 		call := func(name string, f func()) bool {
 			log = append(log, name)
